@@ -815,18 +815,35 @@ Qed.
 
 (* ------------------------------------------------------------------ the routine as a whole (single module or the
    selected sub-network) *)
+(* the store in which blk.response() and the analytical pass start: blk.reset(); [s.reset() for s in inps] *)
+Definition start_store (blk : net) (inps : list sref) (s : store) : store := resets inps (n_reset blk s).
+
 Theorem fd_result c blk inps outps s res :
   finite_difference c false blk inps outps s = inr res ->
-  let s1 := n_response blk (n_reset blk s) in
+  let s1 := n_response blk (start_store blk inps s) in
   let a := analytical c blk inps outps 0 (c_rand c) s1 in
   res = {| f_reports := snd (perturb_inputs c blk inps 0 outps (a_f0 a) (a_df a) (a_dx a) (a_store a));
            f_store := fst (perturb_inputs c blk inps 0 outps (a_f0 a) (a_df a) (a_dx a) (a_store a));
            f_seeds := a_df a |}.
 Proof.
   intros H. cbn zeta. unfold finite_difference in H. cbn [n_response fold_left] in H.
+  unfold start_store, resets.
   match type of H with context [perturb_inputs ?a ?b ?c0 ?d ?e ?f ?g ?h ?i] =>
     destruct (perturb_inputs a b c0 d e f g h i) as [s2 reps] end.
   inversion H; subst. reflexivity.
+Qed.
+
+(* a Network request reduces to the request on the selected modules *)
+Lemma fd_reduce c isnet mods inps outps s res :
+  finite_difference c isnet mods inps outps s = inr res ->
+  exists pre blk, finite_difference c false blk inps outps (n_response pre s) = inr res.
+Proof.
+  destruct isnet; [|intros H; exists [], mods; exact H].
+  intros H. destruct (find_first inps mods 0) as [i1|] eqn:E1.
+  2:{ unfold finite_difference in H. rewrite E1 in H. discriminate. }
+  destruct (find_last outps mods 0 None) as [i2|] eqn:E2.
+  2:{ unfold finite_difference in H. rewrite E1, E2 in H. discriminate. }
+  rewrite (fd_network_selection c mods inps outps s i1 i2 E1 E2) in H. eauto.
 Qed.
 
 (* the states: every root the sub-network does not write is restored to what it held after the initial response,
@@ -884,6 +901,8 @@ Proof.
   unfold reset_sig. destruct (s_slice r) as [[ix shp]|]; destruct (se (getsig s (s_root r))); try apply st_same_refl;
     try (destruct (keep (getsig s (s_root r)))); apply put_se_st_same.
 Qed.
+Lemma resets_st_same L s : st_same s (resets L s).
+Proof. unfold resets. apply (fold_st_same (fun s2 r => reset_sig r s2)). intros; apply reset_sig_st_same. Qed.
 Lemma n_reset_st_same n s : st_same s (n_reset n s).
 Proof.
   unfold n_reset. apply fold_st_same. intros s0 m. unfold m_reset.
@@ -925,22 +944,27 @@ Qed.
 
 (* no sensitivity is left set: every Signal of the sub-network AND every output of interest that has a value (also
    one that is not a signal of any executed module) holds None or zeros after the call *)
-Definition out_sig (blk : net) (outps : list sref) (s : store) (j : nat) : Prop :=
+Definition out_sig (blk : net) (inps outps : list sref) (s : store) (j : nat) : Prop :=
   exists so, In so outps /\ s_root so = j /\ s_slice so = None /\
-             st (getsig (n_response blk (n_reset blk s)) j) <> None.
+             st (getsig (n_response blk (start_store blk inps s)) j) <> None.
+
+Lemma start_store_clean_pres blk inps s j : clean (se (getsig s j)) -> clean (se (getsig (start_store blk inps s) j)).
+Proof. intros H. unfold start_store. apply resets_clean_pres. apply n_reset_clean_pres. exact H. Qed.
+Lemma start_store_clean blk inps s j : direct_sig blk j -> clean (se (getsig (start_store blk inps s) j)).
+Proof. intros H. unfold start_store. apply resets_clean_pres. apply n_reset_clean. exact H. Qed.
 
 Theorem fd_leaves_clean c blk inps outps s res j :
-  finite_difference c false blk inps outps s = inr res -> direct_sig blk j \/ out_sig blk outps s j ->
+  finite_difference c false blk inps outps s = inr res -> direct_sig blk j \/ out_sig blk inps outps s j ->
   clean (se (getsig (f_store res) j)).
 Proof.
   intros H Hd. rewrite (fd_result _ _ _ _ _ _ H). cbn [f_store].
-  set (s1 := n_response blk (n_reset blk s)). set (a := analytical c blk inps outps 0 (c_rand c) s1).
+  set (s1 := n_response blk (start_store blk inps s)). set (a := analytical c blk inps outps 0 (c_rand c) s1).
   destruct (perturb_inputs_sens_same c blk outps (a_f0 a) (a_df a) (a_dx a) inps 0%nat (a_store a)) as [_ F].
   destruct (F j) as [F1 _]. rewrite F1.
   destruct Hd as [Hd|(so & Hin & <- & Hsl & Hst)].
   - unfold a. apply analytical_clean; [exact Hd|].
-    unfold s1. destruct (n_response_sens_same blk (n_reset blk s)) as [_ G]. destruct (G j) as [G1 _]. rewrite G1.
-    apply n_reset_clean; exact Hd.
+    unfold s1. destruct (n_response_sens_same blk (start_store blk inps s)) as [_ G]. destruct (G j) as [G1 _]. rewrite G1.
+    apply start_store_clean; exact Hd.
   - unfold a. apply analytical_out_clean; assumption.
 Qed.
 
@@ -951,12 +975,12 @@ Theorem fd_keeps_clean c blk inps outps s res j :
   clean (se (getsig (f_store res) j)).
 Proof.
   intros H Hc. rewrite (fd_result _ _ _ _ _ _ H). cbn [f_store].
-  set (s1 := n_response blk (n_reset blk s)). set (a := analytical c blk inps outps 0 (c_rand c) s1).
+  set (s1 := n_response blk (start_store blk inps s)). set (a := analytical c blk inps outps 0 (c_rand c) s1).
   destruct (perturb_inputs_sens_same c blk outps (a_f0 a) (a_df a) (a_dx a) inps 0%nat (a_store a)) as [_ F].
   destruct (F j) as [F1 _]. rewrite F1.
   unfold a. apply analytical_clean_pres.
-  unfold s1. destruct (n_response_sens_same blk (n_reset blk s)) as [_ G]. destruct (G j) as [G1 _]. rewrite G1.
-  apply n_reset_clean_pres; exact Hc.
+  unfold s1. destruct (n_response_sens_same blk (start_store blk inps s)) as [_ G]. destruct (G j) as [G1 _]. rewrite G1.
+  apply start_store_clean_pres; exact Hc.
 Qed.
 
 (* the same for a Network: the modules before the first user of an input are only evaluated *)
@@ -964,7 +988,7 @@ Theorem fd_network_leaves_clean c mods inps outps s res i1 i2 j :
   find_first inps mods 0 = Some i1 -> find_last outps mods 0 None = Some i2 ->
   finite_difference c true mods inps outps s = inr res ->
   let blk := firstn (S i2 - i1) (skipn i1 mods) in
-  direct_sig blk j \/ out_sig blk outps (n_response (firstn i1 mods) s) j \/ clean (se (getsig s j)) ->
+  direct_sig blk j \/ out_sig blk inps outps (n_response (firstn i1 mods) s) j \/ clean (se (getsig s j)) ->
   clean (se (getsig (f_store res) j)).
 Proof.
   intros H1 H2 H blk Hd. rewrite (fd_network_selection c mods inps outps s i1 i2 H1 H2) in H. fold blk in H.
@@ -975,6 +999,188 @@ Proof.
     destruct (n_response_sens_same (firstn i1 mods) s) as [_ G]. destruct (G j) as [G1 _]. rewrite G1. exact Hc.
 Qed.
 
+(* ------------------------------------------------------------------ the inputs of interest (fixed finding F27):
+   whatever sensitivity the caller left on them, they are clean when the analytical pass starts, at the start of every
+   iteration of it, and after the call — on a Signal the whole sensitivity, through a slice the addressed entries *)
+Lemma clean_get_sens si s :
+  clean (get_sens si s) <-> forall p, cov1b si (s_root si) p = true -> zat (se (getsig s (s_root si))) p.
+Proof.
+  unfold get_sens, cov1b. rewrite Nat.eqb_refl. cbn [andb].
+  destruct (se (getsig s (s_root si))) as [b|]; [|split; intros; exact I].
+  destruct (s_slice si) as [[ix shp]|]; cbn.
+  - unfold gather. rewrite Forall_forall. split.
+    + intros H p Hp. apply H. apply in_map_iff. exists p. split; [reflexivity|apply existsb_eqb_in; exact Hp].
+    + intros H a Ha. apply in_map_iff in Ha as (p & <- & Hp). apply H. apply existsb_eqb_in; exact Hp.
+  - rewrite all_zero_nth. split; auto.
+Qed.
+
+Theorem start_store_inputs_clean blk inps s si : In si inps -> clean (get_sens si (start_store blk inps s)).
+Proof.
+  intros Hin. apply clean_get_sens. intros p Hp. unfold start_store. apply resets_zat_cov.
+  apply existsb_exists. exists si. split; assumption.
+Qed.
+
+Theorem iteration_inputs_clean blk so df s si :
+  clean (get_sens si s) ->
+  clean (get_sens si (reset_sig so (n_reset blk (n_sensitivity blk (set_sens so (Some df) s))))).
+Proof. rewrite !clean_get_sens. intros H p Hp. apply iteration_zat. apply H; exact Hp. Qed.
+
+Theorem fd_inputs_left_clean c isnet mods inps outps s res si :
+  finite_difference c isnet mods inps outps s = inr res -> In si inps -> clean (get_sens si (f_store res)).
+Proof.
+  intros H Hin. apply fd_reduce in H as (pre & blk & H). rewrite (fd_result _ _ _ _ _ _ H). cbn [f_store].
+  set (s0 := n_response pre s). set (s1 := n_response blk (start_store blk inps s0)).
+  set (a := analytical c blk inps outps 0 (c_rand c) s1).
+  apply clean_get_sens. intros p Hp.
+  destruct (perturb_inputs_sens_same c blk outps (a_f0 a) (a_df a) (a_dx a) inps 0%nat (a_store a)) as [_ F].
+  destruct (F (s_root si)) as [F1 _]. rewrite F1.
+  unfold a. apply analytical_zat_pres.
+  unfold s1. destruct (n_response_sens_same blk (start_store blk inps s0)) as [_ G]. destruct (G (s_root si)) as [G1 _].
+  rewrite G1. revert p Hp. apply clean_get_sens. apply start_store_inputs_clean; exact Hin.
+Qed.
+
+(* ------------------------------------------------------------------ independence: the whole result (tuples, final
+   store, seeds) is the same for two stores that differ only in the sensitivity the caller left on Signals that are
+   inputs of interest and keep no allocation *)
+Definition reset_rec (r : sref) (g : sigrec) : sigrec :=
+  match se g with
+  | None => g
+  | Some c =>
+      match s_slice r with
+      | None => {| st := st g; se := (if keep g then Some (zeros_like c) else None); keep := keep g |}
+      | Some (ix, _) =>
+          {| st := st g; se := Some (assign_into c ix {| v_dat := [k0]; v_kind := KScal; v_cx := false |}); keep := keep g |}
+      end
+  end.
+
+Lemma getsig_reset_sig r s j :
+  getsig (reset_sig r s) j = if Nat.eqb (s_root r) j then reset_rec r (getsig s j) else getsig s j.
+Proof.
+  destruct (Nat.eqb (s_root r) j) eqn:E.
+  - apply Nat.eqb_eq in E. subst j. unfold reset_sig, reset_rec.
+    destruct (se (getsig s (s_root r))) as [c|] eqn:Ec.
+    2:{ destruct (s_slice r) as [[ix shp]|]; reflexivity. }
+    pose proof (se_in_range _ _ _ Ec) as Hlt. unfold put_se. cbv zeta.
+    destruct (s_slice r) as [[ix shp]|]; [|destruct (keep (getsig s (s_root r)))];
+      rewrite getsig_upd_eq by exact Hlt; reflexivity.
+  - apply Nat.eqb_neq in E. unfold reset_sig.
+    destruct (s_slice r) as [[ix shp]|]; destruct (se (getsig s (s_root r))); try reflexivity;
+      try (destruct (keep (getsig s (s_root r)))); apply put_se_other; exact E.
+Qed.
+
+Definition recs (L : list sref) (j : nat) (g : sigrec) : sigrec :=
+  fold_left (fun g r => if Nat.eqb (s_root r) j then reset_rec r g else g) L g.
+Lemma getsig_resets L j : forall s, getsig (resets L s) j = recs L j (getsig s j).
+Proof.
+  unfold resets, recs. induction L as [|r L IH]; intros s; cbn [fold_left]; [reflexivity|].
+  rewrite IH, getsig_reset_sig. reflexivity.
+Qed.
+Lemma resets_length L : forall s, length (resets L s) = length s.
+Proof. intros s. apply (resets_st_same L s). Qed.
+
+(* two records that agree except for the sensitivity *)
+Definition rec_sim (g g' : sigrec) : Prop := st g' = st g /\ keep g' = keep g.
+Lemma reset_rec_sim r g g' : rec_sim g g' -> rec_sim (reset_rec r g) (reset_rec r g').
+Proof.
+  intros [H1 H2]. unfold reset_rec, rec_sim.
+  destruct (se g), (se g'); destruct (s_slice r) as [[ix shp]|]; cbn; auto.
+Qed.
+Lemma reset_rec_forget r g g' : rec_sim g g' -> s_slice r = None -> keep g = false -> reset_rec r g' = reset_rec r g.
+Proof.
+  intros [H1 H2] Hs Hk. unfold reset_rec. rewrite Hs, H2, Hk.
+  destruct g as [a b k], g' as [a' b' k']; cbn in *; subst. destruct b, b'; reflexivity.
+Qed.
+Lemma reset_rec_keep r g : keep (reset_rec r g) = keep g.
+Proof. unfold reset_rec. destruct (se g); [destruct (s_slice r) as [[ix shp]|]|]; reflexivity. Qed.
+
+Lemma recs_forget L j : forall g g', rec_sim g g' -> keep g = false ->
+  (exists r, In r L /\ s_root r = j /\ s_slice r = None) -> recs L j g' = recs L j g.
+Proof.
+  unfold recs. induction L as [|r L IH]; intros g g' Hsim Hk (r0 & Hin & Hr & Hs); [destruct Hin|].
+  cbn [fold_left]. destruct (Nat.eqb (s_root r) j) eqn:E.
+  - destruct (s_slice r) as [[ix shp]|] eqn:Es.
+    + destruct Hin as [->|Hin]; [congruence|].
+      apply IH; [apply reset_rec_sim; exact Hsim|rewrite reset_rec_keep; exact Hk|eauto].
+    + rewrite (reset_rec_forget r g g' Hsim Es Hk). reflexivity.
+  - destruct Hin as [->|Hin]; [apply Nat.eqb_neq in E; congruence|]. apply IH; eauto.
+Qed.
+
+Definition se_free (inps : list sref) (s s' : store) : Prop :=
+  length s' = length s /\
+  forall j, getsig s' j = getsig s j \/
+            (rec_sim (getsig s j) (getsig s' j) /\ keep (getsig s j) = false /\
+             exists si, In si inps /\ s_root si = j /\ s_slice si = None).
+
+Lemma store_ext (s s' : store) : length s' = length s -> (forall j, getsig s' j = getsig s j) -> s' = s.
+Proof. intros Hl H. apply (nth_ext s' s sig0 sig0 Hl). intros n _. apply H. Qed.
+
+Lemma resets_app L1 L2 s : resets (L1 ++ L2) s = resets L2 (resets L1 s).
+Proof. unfold resets. apply fold_left_app. Qed.
+
+Lemma start_store_forget blk inps s s' : se_free inps s s' -> start_store blk inps s' = start_store blk inps s.
+Proof.
+  intros [Hl H]. unfold start_store. rewrite !n_reset_resets, <- !resets_app.
+  apply store_ext; [rewrite !resets_length; exact Hl|]. intros j. rewrite !getsig_resets.
+  destruct (H j) as [->|(Hsim & Hk & si & Hin & Hr & Hs)]; [reflexivity|].
+  apply recs_forget; [exact Hsim|exact Hk|]. exists si. split; [apply in_or_app; right; exact Hin|auto].
+Qed.
+
+(* evaluating modules reads and writes states only: it carries the relation along *)
+Lemma get_state_sim r s s' : (forall j, st (getsig s' j) = st (getsig s j)) -> get_state r s' = get_state r s.
+Proof. intros H. unfold get_state. rewrite H. reflexivity. Qed.
+Lemma getsig_put_st i v s j :
+  getsig (put_st i v s) j =
+  if Nat.eqb i j && Nat.ltb j (length s) then {| st := v; se := se (getsig s j); keep := keep (getsig s j) |} else getsig s j.
+Proof.
+  unfold put_st. destruct (Nat.eqb i j) eqn:E; cbn [andb].
+  - apply Nat.eqb_eq in E. subst j. destruct (Nat.ltb i (length s)) eqn:El.
+    + apply Nat.ltb_lt in El. apply getsig_upd_eq; exact El.
+    + apply Nat.ltb_ge in El. rewrite upd_oob by exact El. reflexivity.
+  - apply Nat.eqb_neq in E. apply getsig_upd_neq; exact E.
+Qed.
+Lemma put_st_se_free inps i v s s' : se_free inps s s' -> se_free inps (put_st i v s) (put_st i v s').
+Proof.
+  intros [Hl H]. split; [rewrite !put_st_length; exact Hl|]. intros j. rewrite !getsig_put_st, Hl.
+  destruct (Nat.eqb i j && Nat.ltb j (length s)); [|apply H].
+  destruct (H j) as [->|((H1 & H2) & Hk & Hex)]; [left; reflexivity|].
+  right. split; [split; cbn; auto|]. split; [exact Hk|exact Hex].
+Qed.
+Lemma se_free_st inps s s' : se_free inps s s' -> forall j, st (getsig s' j) = st (getsig s j).
+Proof. intros [_ H] j. destruct (H j) as [->|((H1 & _) & _)]; [reflexivity|exact H1]. Qed.
+Lemma set_state_se_free inps r x s s' : se_free inps s s' -> se_free inps (set_state r x s) (set_state r x s').
+Proof.
+  intros H. unfold set_state. destruct (s_slice r) as [[ix shp]|]; [|apply put_st_se_free; exact H].
+  rewrite (se_free_st _ _ _ H). destruct (st (getsig s (s_root r))); [apply put_st_se_free|]; exact H.
+Qed.
+Lemma set_states_se_free inps rs : forall vs s s', se_free inps s s' -> se_free inps (set_states rs vs s) (set_states rs vs s').
+Proof.
+  induction rs as [|r rs IH]; intros [|[v|] vs] s s' H; cbn [set_states]; try exact H.
+  - apply IH. apply set_state_se_free; exact H.
+  - apply IH. destruct (s_slice r); [exact H|apply put_st_se_free; exact H].
+Qed.
+Lemma n_response_se_free inps n : forall s s', se_free inps s s' -> se_free inps (n_response n s) (n_response n s').
+Proof.
+  unfold n_response. induction n as [|m n IH]; intros s s' H; cbn [fold_left]; [exact H|].
+  apply IH. unfold m_response.
+  replace (map (fun r => get_state r s') (m_in m)) with (map (fun r => get_state r s) (m_in m))
+    by (apply map_ext; intros r; symmetry; apply get_state_sim; apply (se_free_st _ _ _ H)).
+  apply set_states_se_free; exact H.
+Qed.
+
+Theorem fd_independent_of_input_sensitivities c isnet mods inps outps s s' :
+  se_free inps s s' ->
+  finite_difference c isnet mods inps outps s' = finite_difference c isnet mods inps outps s.
+Proof.
+  intros H. unfold finite_difference.
+  match goal with |- match ?sel with _ => _ end = _ => destruct sel as [e|[pre blk]] end; [reflexivity|].
+  cbv zeta.
+  change (fold_left (fun s0 r => reset_sig r s0) inps (n_reset blk (n_response pre s')))
+    with (start_store blk inps (n_response pre s')).
+  change (fold_left (fun s0 r => reset_sig r s0) inps (n_reset blk (n_response pre s)))
+    with (start_store blk inps (n_response pre s)).
+  rewrite (start_store_forget blk inps _ _ (n_response_se_free inps pre s s' H)). reflexivity.
+Qed.
+
 (* after the call every input state (every root the sub-network does not write) equals its initial value exactly *)
 Theorem fd_restores c blk inps outps s res j :
   finite_difference c false blk inps outps s = inr res ->
@@ -982,9 +1188,11 @@ Theorem fd_restores c blk inps outps s res j :
   st (getsig (f_store res) j) = st (getsig s j).
 Proof.
   intros H Hwf Hlt Hpres. rewrite (fd_result _ _ _ _ _ _ H). cbn [f_store].
-  set (s1 := n_response blk (n_reset blk s)). set (a := analytical c blk inps outps 0 (c_rand c) s1).
+  set (s1 := n_response blk (start_store blk inps s)). set (a := analytical c blk inps outps 0 (c_rand c) s1).
   destruct (analytical_st_same c blk inps outps 0%nat (c_rand c) s1) as [La Fa]. fold a in La, Fa.
-  destruct (n_reset_st_same blk s) as [Lr Fr].
+  assert (Hst : st_same s (start_store blk inps s)).
+  { unfold start_store. eapply st_same_trans; [apply n_reset_st_same|apply resets_st_same]. }
+  destruct Hst as [Lr Fr].
   assert (L1 : length s1 = length s) by (unfold s1; rewrite n_response_length; exact Lr).
   rewrite perturb_inputs_restores; [|exact Hwf| |exact Hpres].
   - rewrite Fa. unfold s1. rewrite Hpres. apply Fr.
